@@ -126,6 +126,36 @@ CHECKS.update({
              '(uuid.UUID raises only TypeError/ValueError/AttributeError); '
              'pyvc, z3.',
         ref='DESIGN.md section 4 C14'),
+    'C11': dict(
+        text='Exception flow of every address validator proved with netaddr '
+             'replaced by its assumed contract (each call may return anything '
+             'or raise AddrFormatError/ValueError[/TypeError]): for every str '
+             'argument no exception escapes; IPv6 scope-id rule (1..15 '
+             'characters) and the CIDR prefix-presence rule; is_valid_port / '
+             'icmp_type / icmp_code exactly (int, str via int(), None, other '
+             'types); MAC pattern language == six colon-separated hex pairs '
+             '(z3 regular-language lemma on the real pattern literal). '
+             'Bounded stand-in (real netaddr): agreement with the ipaddress '
+             'module and never-raises over the address grammar family.',
+        note='A-NETADDR (raise sets and judgement of netaddr - checked only '
+             'by the bounded family), A-STDLIB-INT, A-LOWER (validated over '
+             'all code points each run), A-SPLIT; pyvc, z3.',
+        ref='DESIGN.md section 4 C11'),
+    'C15': dict(
+        text='EUI-64: with netaddr given by its contract, '
+             'get_ipv6_addr_by_EUI64 = network address | modified EUI-64 '
+             '(ff:fe inserted, bit 57 inverted) and get_mac_addr_by_ipv6 '
+             'recovers the MAC, for all 2^48 MACs and all 2^64 network '
+             'prefixes in one bit-vector query each (operator precedence of '
+             '+ and ^ read from the AST); error paths raise only ValueError / '
+             'TypeError. parse_host_port/escape_ipv6, urlsplit and params() '
+             'are covered by the bounded stand-in only (real urllib/netaddr): '
+             'round trips over 3 host families x ports x defaults, agreement '
+             'with urllib.parse over a URL family.',
+        note='A-NETADDR for EUI/IPNetwork/IPAddress; prefix length <= 64 '
+             '(low 64 bits of the network address zero); host:port and URL '
+             'clauses are bounded, not proved; pyvc, z3.',
+        ref='DESIGN.md section 4 C15'),
     'C05': dict(
         text='len(region.data) <= region.length is preserved by both capture '
              'methods for any chunk; every fixed-layout inspector has the '
